@@ -50,7 +50,8 @@ def dispatchers(prog: Program) -> List[DispatcherRoles]:
                     and x.func.value.id == 'self' and prog.find_method(ci, x.func.attr) is None:
                 tg = ty.callees(x, sc)
                 own = [o for k, o in tg if k == 'func' and isinstance(o, FuncInfo) and o.cls is ci]
-                if own and any(k == 'user' for k, _ in tg):
+                # the slot is an instance attribute initialised with an own method (and re-assigned by the middleware fold)
+                if own and len(x.args) + len(x.keywords) == 2:
                     slot, h1 = x.func.attr, own[0]
         if slot is None or h1 is None:
             raise AnalysisError(f'{ci.qualname}.dispatch: per-element handler slot call not found')
@@ -75,6 +76,25 @@ def _single_self_callee(prog: Program, f: FuncInfo, ci: ClassInfo, what: str) ->
             for k, o in ty.callees(x, sc):
                 if k == 'func' and isinstance(o, FuncInfo) and o.cls is ci and o not in cands:
                     cands.append(o)
+    if len(cands) > 1:
+        # helpers may have been extracted: the next link of the chain is the callee that (transitively) reaches the
+        # registry lookup / bind, i.e. the one through which the method is invoked
+        def reaches_bind(g: FuncInfo, seen: Set[str]) -> bool:
+            if g.qualname in seen:
+                return False
+            seen.add(g.qualname)
+            sc2 = FuncScope(g, ty)
+            for y in walk_own(g.node):
+                if isinstance(y, ast.Call):
+                    if isinstance(y.func, ast.Attribute) and y.func.attr == 'bind':
+                        return True
+                    for k, o in ty.callees(y, sc2):
+                        if k == 'func' and isinstance(o, FuncInfo) and o.cls is ci and reaches_bind(o, seen):
+                            return True
+            return False
+        narrowed = [c for c in cands if reaches_bind(c, set())]
+        if len(narrowed) == 1:
+            return narrowed[0]
     if len(cands) != 1:
         raise AnalysisError(f'{f.qualname}: expected exactly one own-method callee of the {what}, found '
                             f'{[c.name for c in cands]}')
